@@ -18,6 +18,7 @@ import collections
 import common
 import langengine as le
 import rndgen
+import tlc
 import tracecheck
 
 
@@ -33,6 +34,18 @@ def run(tier):
     common.build_harness()
     v = common.Verdict("C02", tier, "model_checking")
     tally = le.Tally()
+    # the ownership protocol on the model: the current discipline satisfies NoStale for every
+    # sequence of abstract statements; the discipline the repository had is refuted (the model discriminates)
+    mc = tlc.run("mem/Reclaim.tla", "mem/Reclaim.cfg", workers=6, timeout=1200)
+    if mc.rc != 0 or mc.timed_out:
+        raise common.ToolError("Reclaim.tla: NoStale does not hold for the modelled discipline: %s" % mc.errors[:3])
+    dead = [a for a, (d, t) in mc.coverage.items() if t == 0]
+    if dead:
+        raise common.ToolError("Reclaim.tla vacuous: actions never taken %s" % dead)
+    old = tlc.run("mem/Reclaim.tla", "mem/ReclaimOld.cfg", workers=2, timeout=600, coverage=False)
+    if old.rc != 12:
+        raise common.ToolError("Reclaim.tla does not refute the alias-on-read / release-before-promote discipline (model not discriminating)")
+    tally.add_tlc("Reclaim(model of the ownership protocol)", mc)
     for module, env in profiles(tier):
         r = le.generate(module, env=env, timeout=2400)
         tally.add_tlc(module, r)
